@@ -74,6 +74,7 @@ void vf_max(const char *name, long value);
 void vf_distinct(const char *set, uint64_t h);   /* distinct-hash set, unioned by the driver */
 void vf_sample(const char *fmt, ...) __attribute__((format(printf, 1, 2)));
 #define VF_COUNT(name) vf_count(name, 1)
+void vf_name(const char *set, const char *name);   /* named-string set, unioned by the driver (e.g. functions covered) */
 
 /* ---- per-case operation log --------------------------------------------- */
 void vf_case_begin(long caseno, const char *fmt, ...) __attribute__((format(printf, 2, 3)));
